@@ -1007,3 +1007,108 @@ M('with_delimiter_rbuf', 'C12', SO,
   """                        if with_delimiter:  # include delimiter in return
                             offset += len_delimiter
                             rbuf_offset = offset - (len_delimiter == 3)""")
+
+FI = 'boltons/fileutils.py'
+# ---------------------------------------------------------------- C04
+M('no_fsync', 'C04', FI,
+  """            self.part_file.flush()
+            os.fsync(self.part_file.fileno())
+            self.part_file.close()""",
+  """            self.part_file.flush()
+            self.part_file.close()""")
+M('no_flush_before_fsync', 'C04', FI,
+  """            self.part_file.flush()
+            os.fsync(self.part_file.fileno())
+            self.part_file.close()""",
+  """            os.fsync(self.part_file.fileno())
+            self.part_file.close()""")
+M('fsync_only_small', 'C04', FI,
+  """            os.fsync(self.part_file.fileno())
+            self.part_file.close()""",
+  """            if self.part_file.tell() < 70000:
+                os.fsync(self.part_file.fileno())
+            self.part_file.close()""")
+M('rename_before_close', 'C04', FI,
+  """        if self.part_file:
+            # Ensure data is flushed and synced to disk before closing
+            self.part_file.flush()
+            os.fsync(self.part_file.fileno())
+            self.part_file.close()
+        if exc_type:""",
+  """        if self.part_file and exc_type:
+            self.part_file.close()
+        if self.part_file and not exc_type and self.overwrite:
+            atomic_rename(self.part_path, self.dest_path, overwrite=True)
+            self.part_file.flush()
+            os.fsync(self.part_file.fileno())
+            self.part_file.close()
+            return
+        elif self.part_file and not exc_type:
+            self.part_file.flush()
+            os.fsync(self.part_file.fileno())
+            self.part_file.close()
+        if exc_type:""")
+M('copy_instead_of_rename', 'C04', FI,
+  """        if overwrite:
+            os.rename(src, dst)
+        else:
+            os.link(src, dst)
+            os.unlink(src)
+        return
+
+
+_atomic_rename""",
+  """        if overwrite:
+            import shutil
+            shutil.copyfile(src, dst)
+            os.unlink(src)
+        else:
+            os.link(src, dst)
+            os.unlink(src)
+        return
+
+
+_atomic_rename""")
+M('unlink_dest_before_rename', 'C04', FI,
+  """        if overwrite:
+            os.rename(src, dst)
+        else:
+            os.link(src, dst)
+            os.unlink(src)
+        return
+
+
+_atomic_rename""",
+  """        if overwrite:
+            if os.path.exists(dst):
+                os.unlink(dst)
+            os.rename(src, dst)
+        else:
+            os.link(src, dst)
+            os.unlink(src)
+        return
+
+
+_atomic_rename""")
+M('part_is_dest_when_absent', 'C04', FI,
+  """        if not self.part_filename:
+            self.part_path = dest_path + '.part'""",
+  """        if not self.part_filename:
+            self.part_path = dest_path + '.part' if os.path.lexists(dest_path) or not self.overwrite else dest_path""")
+M('part_in_tmp_dir', 'C04', FI,
+  """            self.part_path = os.path.join(self.dest_dir, self.part_filename)""",
+  """            self.part_path = os.path.join(os.environ.get('TMPDIR', '/tmp'), self.part_filename + str(os.getpid()))""")
+M('leaves_part_on_success_text', 'C04', FI,
+  """            os.link(src, dst)
+            os.unlink(src)
+        return
+
+
+_atomic_rename""",
+  """            os.link(src, dst)
+            if not src.endswith('.tmp'):
+                os.unlink(src)
+        return
+
+
+_atomic_rename""")
